@@ -16,6 +16,12 @@ func init() {
 		}
 		// C01: after ANY rejected reload a newly posted alert is still delivered, per the old routing
 		register("C01", "rejected-"+bad+"-api", c17Scenario)
+		if strings.HasPrefix(bad, "late-") {
+			// C13 / C07: after a reload rejected at a late step the API (alert defaults, receivers) still serves the old
+			// configuration, like the dispatcher
+			register("C13", "rejected-"+bad+"-api", c17Scenario)
+			register("C07", "rejected-"+bad+"-api", c17Scenario)
+		}
 	}
 }
 
@@ -33,8 +39,9 @@ func c17Scenario(s *sc) {
 		return Route{Receiver: "r0", GroupBy: []string{"id"}, GW: gw, GI: gi, RI: time.Hour,
 			Routes: []Route{{Receiver: hi, Matchers: []string{`sev="hi"`}}}}
 	}
-	confA := Conf{Root: root("r1"), Receivers: hook("r0", "r1", "r2"), Comment: "configuration A"}
-	confB := Conf{Root: root("r2"), Receivers: hook("r0", "r2", "r3"), Comment: "configuration B"}
+	const rtA, rtB = 5 * time.Minute, 17 * time.Minute
+	confA := Conf{Root: root("r1"), Receivers: hook("r0", "r1", "r2"), Comment: "configuration A", ResolveTimeout: rtA}
+	confB := Conf{Root: root("r2"), Receivers: hook("r0", "r2", "r3"), Comment: "configuration B", ResolveTimeout: rtB}
 	in, err := s.instance(nil)
 	s.must(err, "instance")
 	textA, textB := confA.YAML(in.Sink), confB.YAML(in.Sink)
@@ -111,8 +118,23 @@ func c17Scenario(s *sc) {
 	deliver := func(phase, id, want, other string) bool {
 		end := time.Now().Add(10 * time.Minute)
 		tPost := time.Now()
-		_, err := in.PostAlerts([]AlertIn{{Labels: map[string]string{"alertname": "A", "sev": "hi", "id": id}, EndsAt: &end}})
+		// (the second alert has no endsAt: the API stamps it with now + resolve_timeout of the configuration in force)
+		_, err := in.PostAlerts([]AlertIn{{Labels: map[string]string{"alertname": "A", "sev": "hi", "id": id}, EndsAt: &end}, {Labels: map[string]string{"alertname": "A", "sev": "lo", "id": id + "-noend"}}})
 		s.must(err, "post alert")
+		tPosted := time.Now()
+		wantRT := rtA
+		if want == "r2" {
+			wantRT = rtB
+		}
+		if got, err := in.GetAlerts("filter=" + "id%3D%22" + id + "-noend%22"); err == nil && len(got) == 1 {
+			lo, hi := tPost.Add(wantRT-5*time.Second), tPosted.Add(wantRT+5*time.Second)
+			if got[0].EndsAt.Before(lo) || got[0].EndsAt.After(hi) {
+				s.violate("alert-timeout-not-the-configuration-in-force", "%s: an alert posted without endsAt got endsAt = post time + %s; resolve_timeout of the configuration in force is %s (the other configuration says %s)", phase, got[0].EndsAt.Sub(tPost).Round(time.Second), wantRT, rtA+rtB-wantRT)
+				return false
+			}
+		} else {
+			s.must(fmt.Errorf("%d alerts, %v", len(got), err), "GET the alert without endsAt")
+		}
 		got := func(ep string) func([]Req) bool {
 			return func(reqs []Req) bool {
 				for _, r := range reqs {
@@ -184,7 +206,10 @@ func c17Scenario(s *sc) {
 		s.violate("bad-reload-reported-as-success", "a reload of a configuration that cannot be used (%s) reported success (%s)", kind, detail)
 		return
 	}
-	if !view("after the rejected reload", "A", []string{"r0", "r1", "r2"}, 0) || !deliver("after the rejected reload", "a2", "r1", "r2") {
+	// (both are judged, so that a run reports the status view AND the alert defaults / receivers / routing)
+	okView := view("after the rejected reload", "A", []string{"r0", "r1", "r2"}, 0)
+	okDeliver := deliver("after the rejected reload", "a2", "r1", "r2")
+	if !okView || !okDeliver {
 		return
 	}
 	s.count("rejected-reload-judged")
